@@ -153,6 +153,77 @@ def fut_const(req):
     return None
 
 
+@scenario(["async_task.AsyncTask._computed", "async_task.AsyncTask._queue_exit", "async_task.AsyncTask._queue_throw_error",
+           "async_task.AsyncTask._accept_error"], ["C10"])
+def task_completion_notifies(req):
+    """An AsyncTask completed by return, by exception, by result(), or from outside (set_error while suspended, also inside a try/finally whose cleanup raises): outcome set once, every subscriber notified exactly once after the outcome is visible, a second set raises FutureIsAlreadyComputed."""
+    import io, contextlib
+    from asynq import asynq as A, batching, futures, result, scheduler
+    scheduler.reset()
+
+    @A()
+    def ok():
+        yield batching.DebugBatchItem("k", 1)
+        return 5
+
+    @A()
+    def via_result():
+        yield batching.DebugBatchItem("k", 1)
+        result(6)
+        return
+
+    @A()
+    def boom():
+        yield batching.DebugBatchItem("k", 1)
+        raise KeyError("x")
+
+    @A()
+    def cleanup_raises():
+        try:
+            yield batching.DebugBatchItem("held", 1)
+        finally:
+            raise RuntimeError("cleanup failed")
+    for mk, kind in ((ok, "value"), (via_result, "value"), (boom, "error"), (cleanup_raises, "external"), (ok, "external")):
+        scheduler.reset()
+        t = mk.asynq()
+        seen = []
+        t.on_computed.subscribe(lambda f: seen.append((f.is_computed(), f._value, f._error)))
+        t.on_computed.subscribe(lambda f: (_ for _ in ()).throw(ValueError("subscriber")))
+        t.on_computed.subscribe(lambda f: seen.append("last"))
+        buf = io.StringIO()
+        ext = KeyError("cancelled")
+        with contextlib.redirect_stdout(buf), contextlib.redirect_stderr(buf):
+            if kind == "external":
+                if mk is cleanup_raises:
+                    # start it so that it is suspended inside the try block
+                    s = scheduler.get_scheduler()
+                    s._execute(t)
+                try:
+                    t.set_error(ext)
+                except RuntimeError:
+                    pass      # the failing cleanup may surface here; the notification must still have happened
+            else:
+                try:
+                    t.value()
+                except KeyError:
+                    pass
+        if not t.is_computed():
+            return fail("task not computed", program=mk.fn.__name__, how=kind)
+        if len(seen) != 2 or seen[1] != "last" or seen[0][0] is not True:
+            return fail("subscribers of a task must be notified exactly once, after the outcome is visible, even if one of them raises",
+                        program=mk.fn.__name__, how=kind, seen=repr(seen))
+        if kind == "external" and t.error() is not ext:
+            return fail("externally set error lost", program=mk.fn.__name__)
+        try:
+            t.set_value(1)
+            return fail("second completion did not raise", program=mk.fn.__name__)
+        except futures.FutureIsAlreadyComputed:
+            pass
+        if len(seen) != 2:
+            return fail("second completion notified subscribers")
+    return None
+
+
 # ---------------------------------------------------------------------------
 # batching (C11)
 
@@ -418,6 +489,26 @@ def sched_flush_events(req):
                             DUMP_FLUSH_BATCH=dump, events=[e[0] for e in events], picked_largest=r is b2)
             if b2 in s._batches or b1 not in s._batches:
                 return fail("flushed batch must leave the set, the other must stay", DUMP_FLUSH_BATCH=dump)
+            # the batch is no longer registered while its flush body runs (a nested flush must not pick it again)
+            inside = []
+
+            class Probe(batching.BatchBase):
+                def _try_switch_active_batch(self):
+                    pass
+
+                def _flush(self):
+                    inside.append(self in s._batches)
+                    inside.append(s._select_batch_to_flush() is self)
+                    for it in self.items:
+                        it.set_value(1)
+            pb = Probe()
+            I(pb); I(pb); I(pb)
+            s._schedule_batch(pb)
+            with contextlib.redirect_stdout(buf):
+                s._continue_with_batch()
+            if inside != [False, False]:
+                return fail("a batch must be removed from the scheduler's set before its flush body runs (else a nested flush re-selects it)",
+                            registered_during_flush=inside[0] if inside else None, reselectable=inside[1] if len(inside) > 1 else None)
         finally:
             debug.options.DUMP_FLUSH_BATCH = False
     # nested synchronous flush of the same batch kind: outer wait_for must not fail when nothing is left
@@ -456,7 +547,7 @@ def sched_flush_events(req):
 
 @scenario(["scheduler.TaskScheduler._execute", "scheduler.TaskScheduler._continue_with_task",
            "scheduler.TaskScheduler._handle_async_task", "scheduler.TaskScheduler.wait_for",
-           "async_task.AsyncTask._continue", "async_task.AsyncTask._compute"], ["C02", "C08"])
+           "async_task.AsyncTask._continue", "async_task.AsyncTask._compute"], ["C01", "C02", "C08"])
 def sched_clean_after_failures(req):
     """After computations that fail at a task step, a lazily computed Future, a batch item or a context resume/pause, the failure is delivered at the yield (catchable) and the scheduler keeps no task and no active task."""
     import asynq
